@@ -92,7 +92,8 @@ class Stream:
                 rel_checked += 1
                 if i.startswith(("CRASH", "HANG", "MISSING")) or "B(OUTSIDE" in i:
                     fails.append({"stream": self.name, "case": line, "observed": "[release build] " + i[:600], "expected": m[:600],
-                                  "why": "release build: implementation " + i[:60] + " (message ends at a PROT_NONE guard page)"})
+                                  "why": ("release build: a call returned a slice outside the message" if "B(OUTSIDE" in i else
+                                          "release build: implementation " + i[:60] + " (message ends at a PROT_NONE guard page)")})
                 elif "PANIC" not in m and "UB" not in m and m != i:
                     dis.append({"case": line, "model": m[:400], "impl": "[release build] " + i[:400]})
         hist = {}
@@ -1426,7 +1427,7 @@ class Net(Stream):
                 continue
             # ---- refused names / short buffers: an error before anything is sent
             if e["kind"] == "err:name":
-                if not r.startswith("err:DomainName"):
+                if not (r.startswith("err:DomainName") or (q.kind == "raw" and sc.buf < 512 and r == "err:BufferTooShort(512)")):
                     return "query %d: invalid name %r must be refused, got %s" % (k, q.name, r[:80])
                 if myudp or mytcp:
                     return "query %d: invalid name but %d datagram(s)/%d connection(s) were sent" % (k, len(myudp), len(mytcp))
@@ -1452,9 +1453,9 @@ class Net(Stream):
                 return "query %d: retransmissions / TCP fallback changed the message id: %s" % (k, sorted(x.hex() for x in ids))
             qid = next(iter(ids)) if ids else None
             # ---- transport strategy (C13)
-            if sc.strategy == "tcp" and myudp:
+            if sc.strategy.startswith("tcp") and myudp:
                 return "query %d: TCP-only strategy sent %d datagram(s)" % (k, len(myudp))
-            if sc.strategy == "notcp" and mytcp:
+            if sc.strategy.startswith("notcp") and mytcp:
                 return "query %d: UDP-only strategy opened %d TCP connection(s)" % (k, len(mytcp))
             if len(mytcp) != e["tcp"]:
                 return "query %d: expected %d TCP connection(s), saw %d (result %s)" % (k, e["tcp"], len(mytcp), r[:60])
@@ -1484,7 +1485,7 @@ class Net(Stream):
                 if r != want:
                     return "query %d: expected %s, got %s" % (k, want, r[:100])
             # ---- retransmission schedule and lifetime (C15)
-            if sc.strategy != "tcp":
+            if not sc.strategy.startswith("tcp") and e["sends"] is not None:
                 if len(myudp) != e["sends"]:
                     return "query %d: expected %d transmission(s), saw %d (timing)" % (k, e["sends"], len(myudp))
                 if myudp and sc.qt is not None:
@@ -1503,6 +1504,8 @@ class Net(Stream):
         """record-set extraction of the accepted bytes, from the message semantics"""
         if e.get("echo"):
             return "err:BadMessageType(false)"
+        if e.get("what") == "resplie":
+            return "err:EndOfBuffer"
         flags = int.from_bytes(payload[2:4], "big")
         if flags & 0x0200:
             return "err:MessageTruncated"
@@ -1517,7 +1520,7 @@ class Net(Stream):
         text = (b"".join(l + b"." for l in labels) or b".").hex()
         if ans_ty != want_ty:
             return "err:NoAnswer"
-        return "ok:RS(%s,%d,3600,1)" % (text, q.qclass)
+        return "ok:RS(%s,%d,3600,%d)" % (text, q.qclass, 2 if e.get("what") == "resp2" else 1)
 
 
 def run_net_parallel(cases, width=12):
